@@ -36,6 +36,7 @@ def build_world():
     db.AddUnitBase("time", "second", "s")
     db.AddUnit("time", "minute", "min", *_c(0.0, 60.0, 1.0, 0.0))
     db.AddUnitBase("volume", "cubic metre", "m3")
+    db.AddUnit("volume", "million cubic metres", "Mm3", *_c(0.0, 1e6, 1.0, 0.0))  # ('1000m3' is a legacy spelling of this symbol)
     db.AddUnitBase("area", "square metre", "m2")
     db.AddCategory("length", "length")
     db.AddCategory("depth", "length", valid_units=["m"])
@@ -59,6 +60,8 @@ REG = OrderedDict(
         ("AddCategory(length, length, override, default_unit=cm, default_value=5, max_value=100)", lambda db: db.AddCategory("length", "length", override=True, default_unit="cm", default_value=5.0, max_value=100.0)),
         ("AddCategory(new, length)", lambda db: db.AddCategory("new", "length")),
         ("AddUnit(length, bananas)", lambda db: db.AddUnit("length", "bananas", "bananas", *_c(0.0, 0.2, 1.0, 0.0))),
+        # a unit whose symbol is, letter for letter, a legacy spelling of another unit ('1000m3' -> 'Mm3')
+        ("AddUnit(volume, 1000m3)", lambda db: db.AddUnit("volume", "thousand cubic metres (explicit)", "1000m3", *_c(0.0, 1000.0, 1.0, 0.0))),
         ("AddUnit(length, m) [rejected]", lambda db: db.AddUnit("length", "dup", "m", *_c(0.0, 1.0, 1.0, 0.0))),
         ("AddCategory(length, length) [rejected]", lambda db: db.AddCategory("length", "length")),
     ]
@@ -106,6 +109,8 @@ QUERIES = OrderedDict(
         ("Scalar(1,'x')", lambda db: Scalar(1.0, "x")),
         ("Scalar(1,'cm3')", lambda db: Scalar(1.0, "cm3")),
         ("Scalar(2,'km').IsValid()", lambda db: Scalar(2.0, "km").IsValid()),
+        ("ObtainQuantity('1000m3','volume') unit and name", lambda db: (lambda q: (q.GetUnit(), q.GetUnitName()))(ObtainQuantity("1000m3", "volume"))),
+        ("Scalar(2,'1000m3').GetValue('m3')", lambda db: (lambda x: (x.GetUnit(), x.GetValue("m3")))(Scalar(2.0, "1000m3"))),
         # a label that is not a registered unit, in the Unknown quantity type and elsewhere
         ("Scalar(1.5,'<unknown>','Unknown').GetValue('bananas')", lambda db: Scalar(1.5, "<unknown>", "Unknown").GetValue("bananas")),
         ("db.Convert('Unknown','bananas','apples',[1.0])", lambda db: db.Convert("Unknown", "bananas", "apples", [1.0])),
